@@ -165,7 +165,9 @@ impl<K: Kmer + Send + Sync + 'static> Model for KM<K> {
                 if s.k.cmp(pk) != s.m.cmp(ps) || (s.k == *pk) != (s.m == *ps) || s.k.partial_cmp(pk) != Some(s.m.cmp(ps)) {
                     return false;
                 }
-                if s.m == *ps && h(&s.k) != h(pk) {
+                // equal strings must hash equal; different strings must not collide (64-bit SipHash: a collision among a few
+                // hundred probes has probability ~2^-50, so a collision means the hash ignores part of the string)
+                if (s.m == *ps) != (h(&s.k) == h(pk)) {
                     return false;
                 }
             }
@@ -270,7 +272,8 @@ pub fn run_type<K: Kmer + Send + Sync + 'static>(name: &str, quick: bool, rep: &
     if closing && distinct.len() as u64 != count_strings(K::k()) {
         rep.machinery_errors.push(format!("{}: closing search reached {} of {} strings", name, distinct.len(), count_strings(K::k())));
     }
-    for m in collection_laws(&reached).into_iter().take(2) {
+    let laws = std::panic::catch_unwind(std::panic::AssertUnwindSafe(|| collection_laws(&reached))).unwrap_or_else(|_| vec!["sorting / grouping / perfect-hash construction over the reached k-mers panicked (e.g. distinct k-mers that always collide)".to_string()]);
+    for m in laws.into_iter().take(2) {
         rep.violation(Violation { signature: "kmer-collection-law".into(), case: json!({"model": desc, "post": "collection laws"}), detail: format!("{}: {}", name, m) });
     }
 }
